@@ -87,7 +87,7 @@ class State:
     def __init__(s, eng):
         s.eng = eng; s.uid = new_uid()
         s.mem = {}; s.next_obj = eng.M.first_dyn_obj; s.frames = []; s.pc = []; s.model = None
-        s.exc = None; s.caught = []; s.steps = 0; s.log = []; s.inputs = []; s.conc = {}; s.subst = []; s.decisions = {}
+        s.exc = None; s.caught = []; s.steps = 0; s.log = []; s.inputs = []; s.conc = {}; s.subst = []; s.decisions = {}; s.var_ranges = {}
         s.env = {}          # environment-model state (must hold immutable values or be cloned by env_clone)
         s.nsym = 0
     def fork(s):
@@ -100,7 +100,7 @@ class State:
             g.allocas = list(f.allocas); g.ret_dst = f.ret_dst; g.inv = f.inv; fr2.append(g)
         n.frames = fr2
         n.pc = list(s.pc); n.model = s.model; n.exc = s.exc; n.caught = list(s.caught); n.steps = s.steps
-        n.log = list(s.log); n.inputs = list(s.inputs); n.conc = dict(s.conc); n.subst = list(s.subst); n.decisions = dict(s.decisions); n.nsym = s.nsym
+        n.log = list(s.log); n.inputs = list(s.inputs); n.conc = dict(s.conc); n.subst = list(s.subst); n.decisions = dict(s.decisions); n.var_ranges = s.var_ranges; n.nsym = s.nsym
         n.env = copy_env(s.env)
         return n
     # ---- objects
@@ -141,7 +141,7 @@ class Engine:
         s.undef_strict = True
         s.on_instr = None
         s.known_filter = None; s.known_hits = {}
-        s.fresh_only = False; s.inc_timeout_ms = 3000
+        s.fresh_only = False; s.inc_timeout_ms = 3000; s.alt_solver = None; s.alt_first = False
         from . import models_rt
         models_rt.install(s)
 
@@ -159,6 +159,17 @@ class Engine:
         mode skips the tactic pipeline that floating point and hard bit-vector queries need - a fresh solver."""
         t = time.time()
         r = z3.unknown; m = None
+        if s.alt_first and s.alt_solver is not None and cond is not None:
+            s.cur_ranges = st.var_ranges
+            v, info = s.alt_solver(st.pc, cond)
+            s.stats['alt_' + v] = s.stats.get('alt_' + v, 0) + 1
+            if v in ('sat', 'unsat'):
+                if v == 'sat':
+                    g = z3.Solver()
+                    for bvvar, val in info.items(): g.add(bvvar == val)
+                    g.check(); m = g.model()
+                s.stats['solver_s'] += time.time() - t; s.stats['queries'] += 1; s.stats[v] += 1
+                return m
         if not s.fresh_only:
             s._sync(st.pc)
             if cond is not None:
@@ -176,6 +187,16 @@ class Engine:
             r = f.check(); s.stats['fresh'] = s.stats.get('fresh', 0) + 1
             m = f.model() if r == z3.sat else None
             why = f.reason_unknown() if r == z3.unknown else ''
+            if r == z3.unknown and s.alt_solver is not None:
+                s.cur_ranges = st.var_ranges
+                v, info = s.alt_solver(st.pc, cond)
+                s.stats['alt_' + v] = s.stats.get('alt_' + v, 0) + 1
+                if v == 'unsat': r = z3.unsat
+                elif v == 'sat':
+                    g = z3.Solver()
+                    for bvvar, val in info.items(): g.add(bvvar == val)
+                    g.check(); m = g.model(); r = z3.sat
+                else: why = 'native: %s; alternative encoding: %s %s' % (why, v, str(info)[:300])
         s.stats['solver_s'] += time.time() - t; s.stats['queries'] += 1; s.stats[str(r)] += 1
         if r == z3.unknown: raise Inconclusive('unknown', 'solver returned unknown (%s)' % why)
         return m
@@ -1192,7 +1213,7 @@ class Engine:
             a = regs[a.n] if a.__class__ is Reg else a
             if isinstance(a, Undef): regs[dst] = a
             elif a.__class__ is int: regs[dst] = a ^ (1 << (bits - 1))
-            else: regs[dst] = simp(bv(a, bits) ^ z3.BitVecVal(1 << (bits - 1), bits))
+            else: regs[dst] = simp(z3.fpToIEEEBV(z3.fpNeg(tofp(a, bits))))
             return
         if op == 'freeze':
             a = ins[2]; regs[ins[1]] = regs[a.n] if a.__class__ is Reg else a; return
@@ -1244,6 +1265,7 @@ class Engine:
         mdl = s.models.get(callee)
         if mdl is not None:
             fr.inv = (normal, unwind) if normal is not None else None
+            s._cur_callee = callee
             r = mdl(st, av)           # may raise Throw / PathEnd
             if r is FORKED: return
             fr.inv = None
@@ -1396,7 +1418,7 @@ class Engine:
             if base == 'maxnum': return pk(max(x, y) if x == x and y == y else (y if x != x else x))
             raise Inconclusive('unsupported', 'fp intrinsic ' + base)
         A = tofp(args[0], bits)
-        if base == 'fabs': return simp(bv(args[0], bits) & z3.BitVecVal((1 << (bits - 1)) - 1, bits))
+        if base == 'fabs': return simp(z3.fpToIEEEBV(z3.fpAbs(A)))
         if base == 'ceil': return simp(z3.fpToIEEEBV(z3.fpRoundToIntegral(z3.RTP(), A)))
         if base == 'floor': return simp(z3.fpToIEEEBV(z3.fpRoundToIntegral(z3.RTN(), A)))
         if base == 'trunc': return simp(z3.fpToIEEEBV(z3.fpRoundToIntegral(z3.RTZ(), A)))
